@@ -201,7 +201,7 @@ def run(ck):
         ck.ob('DT-contact', sb.loc(cl), ok_ex, 'the two backbone particles are excluded from each other under exactly the same condition', key='DT-contact|exclusion')
         tup = ast.parse(entry, mode='eval').body
         ok_t = isinstance(tup, ast.Tuple) and len(tup.elts) == 3 and all('get_go_type_from_attributes' in u(e) for e in tup.elts[:2]) and \
-            look_a in u(tup.elts[0]) and look_b in u(tup.elts[1]) and 'prefix=self.moltype' in u(tup.elts[0])
+            look_a in u(tup.elts[0]) and look_b in u(tup.elts[1]) and ('prefix=self.moltype' in u(tup.elts[0]) or ", self.moltype, " in u(tup.elts[0]))
         ck.ob('DT-contact', sb.loc(st), ok_t, 'the emitted entry carries the Go site types of residue A and residue B and that distance', key='DT-contact|entry')
     # sigma / epsilon
     cf = [s for s in walk_local(init_m) if isinstance(s, ast.Assign) and u(s.targets[0]) == 'self.conversion_factor']
